@@ -140,14 +140,32 @@ class Node:
         return [c for c in self.children if c.name == name]
 
 
-def _lp(out: bytearray, text: str | bytes) -> bool:
+LENGTH_CONVENTIONS = ("mod256", "saturate", "truncate", "skip", "mod256-truncate")
+
+
+def _lp(out: bytearray, text: str | bytes, conv: str = "mod256") -> bool:
+    """Length-prefixed string. `conv` only matters for strings longer than 255 octets (what ETS does is unknown):
+    mod256 = low octet of the length + all data; saturate = 255 + all data; truncate = 255 + first 255 octets;
+    skip = the string is left out; mod256-truncate = low octet n + first n octets."""
     raw = text.encode("utf-8") if isinstance(text, str) else text
-    out.append(len(raw) & 0xFF)
-    out += raw
+    if len(raw) <= 255 or conv == "mod256":
+        out.append(len(raw) & 0xFF)
+        out += raw
+    elif conv == "saturate":
+        out.append(255)
+        out += raw
+    elif conv == "truncate":
+        out.append(255)
+        out += raw[:255]
+    elif conv == "mod256-truncate":
+        out.append(len(raw) & 0xFF)
+        out += raw[: len(raw) & 0xFF]
+    elif conv != "skip":
+        raise ValueError(conv)
     return len(raw) <= 255
 
 
-def signed_stream(root: Node) -> tuple[bytes, bool]:
+def signed_stream(root: Node, conv: str = "mod256") -> tuple[bytes, bool]:
     """The signed content of a document (without the trailing password hash).
 
     Second value False if some string does not fit its length octet.
@@ -158,10 +176,10 @@ def signed_stream(root: Node) -> tuple[bytes, bool]:
     def rec(node: Node) -> None:
         nonlocal ok
         out.append(1)
-        ok &= _lp(out, node.name)
+        ok &= _lp(out, node.name, conv)
         for key, value in sorted((a for a in node.attrs if a[0] not in UNSIGNED_ATTRS), key=lambda a: a[0]):
-            ok &= _lp(out, key)
-            ok &= _lp(out, value)
+            ok &= _lp(out, key, conv)
+            ok &= _lp(out, value, conv)
         for child in node.children:
             rec(child)
         out.append(2)
@@ -170,15 +188,15 @@ def signed_stream(root: Node) -> tuple[bytes, bool]:
     return bytes(out), ok
 
 
-def signature(root: Node, pwhash: bytes) -> bytes:
-    stream, _ = signed_stream(root)
+def signature(root: Node, pwhash: bytes, conv: str = "mod256") -> bytes:
+    stream, _ = signed_stream(root, conv)
     tail = bytearray()
     _lp(tail, base64.b64encode(pwhash))
     return hashlib.sha256(stream + bytes(tail)).digest()[:16]
 
 
-def sign(root: Node, pwhash: bytes) -> None:
-    root.set("Signature", base64.b64encode(signature(root, pwhash)).decode("ascii"))
+def sign(root: Node, pwhash: bytes, conv: str = "mod256") -> None:
+    root.set("Signature", base64.b64encode(signature(root, pwhash, conv)).decode("ascii"))
 
 
 @dataclass
@@ -315,6 +333,7 @@ class Project:
     interfaces: list[PInterface] = field(default_factory=list)
     group_keys: list[tuple[int, bytes | None]] | None = None  # None: no <GroupAddresses>
     devices: list[PDevice] | None = None  # None: no <Devices>
+    secret_block: int | None = None  # force the padding layout of every secret (16 / 32); None: random per secret
 
     def shape(self) -> tuple:
         return (len(self.interfaces), len(self.group_keys or ()), len(self.devices or ()),
@@ -331,7 +350,8 @@ def build_tree(project: Project, rng, shuffle_attrs: bool = False, order: str = 
     iv = created_iv(project.created)
 
     def secret(text: str) -> str:
-        return encrypt_secret(text, pwhash, iv, rng.randbytes(8), block=32 if rng.random() < 0.7 else 16)
+        block = project.secret_block or (32 if rng.random() < 0.7 else 16)
+        return encrypt_secret(text, pwhash, iv, rng.randbytes(8), block=block)
 
     root = Node("Keyring", [["Project", project.name], ["CreatedBy", project.created_by],
                             ["Created", project.created], ["Signature", ""], ["xmlns", XMLNS]])
@@ -647,10 +667,55 @@ def corner_projects() -> list[tuple[str, Project, str]]:
             if mask & 1 == 0 and where == "alone":
                 p.interfaces = [itf(0, host=partial.ia)]
             out.append((f"device-attrs-{mask:04b}-{where}", p, "BIGD"))
+    # secrets whose last 1..3 characters equal the padding octet of their own encrypted form, every length 0..40,
+    # both padding layouts (a reader that strips the pad value instead of cutting data[-1] octets eats them)
+    for block in (16, 32):
+        for length in range(41):
+            pad = block - (8 + length) % block
+
+            def sec(k: int, fill: str) -> str:
+                k = min(k, length)  # noqa: B023
+                return (fill * 41)[: length - k] + chr(pad) * k  # noqa: B023
+
+            p = base()
+            p.secret_block = block
+            p.interfaces = [itf(0, password=sec(1, "a"), authentication=sec(2, "b"), groups=[]),
+                            itf(1, password=sec(3, "c"), authentication=sec(1, "d"), groups=[])]
+            p.devices = [dev(0, management_password=sec(2, "e"), authentication=sec(3, "f")),
+                         dev(1, management_password=sec(1, "g"), authentication=sec(length, "h"))]
+            out.append((f"pad-octet-tail-block{block}-len{length:02}", p, "BIGD"))
     # senders that are also devices / devices only / interface senders only (sequence table sources)
     p = base()
     p.interfaces = [itf(0, groups=[(1, [0x1100, 0x1105])])]
     p.group_keys = [(1, key())]
     p.devices = [dev(0)]
     out.append(("sender-is-also-device", p, "BIGD"))
+    return out
+
+
+def long_value_projects() -> list[tuple[str, Project, tuple[str, int | None, str]]]:
+    """Keyrings with one signed attribute value longer than 255 UTF-8 octets.
+
+    -> (label, project, (element, index among same-named top-level/child elements, attribute)) naming the long value.
+    """
+    rng = __import__("random").Random("C31/long-values")
+    out = []
+
+    def base() -> Project:
+        p = Project("Long", "ETS 6.2.2 (Build 7430)", "2025-01-01T00:00:00", CORNER_PASSWORD)
+        p.backbone = PBackbone("224.0.23.12", 1000, rng.randbytes(16))
+        p.group_keys = [(1, rng.randbytes(16))]
+        return p
+
+    p = base()  # 48 Data Secure senders: 48 * "15.15.2xx " > 255 octets
+    p.interfaces = [PInterface(0x1101, "Tunneling", 0x1100, 2, "pw", "auth", [(1, [0xFF00 + n for n in range(200, 248)])])]
+    out.append(("senders-48", p, ("Group", 0, "Senders")))
+    p = base()  # long project name with multi-octet characters
+    p.name = "Gebäude " * 34
+    p.interfaces = [PInterface(0x1101, "USB", None, None, None, None, [(1, [0x1105])])]
+    out.append(("project-name-300-octets", p, ("Keyring", None, "Project")))
+    p = base()  # 200-character tunnel password: its base64 form is > 255 characters
+    p.secret_block = 16
+    p.interfaces = [PInterface(0x1101, "Tunneling", 0x1100, 2, "p" * 199 + "!", "auth", [])]
+    out.append(("tunnel-password-200-chars", p, ("Interface", 0, "Password")))
     return out
